@@ -650,9 +650,9 @@ Section MainLoop.
         match goal with |- forall s1, P H s1 -> match ?m s1 with _ => _ end => change (rp H m) end.
         destruct (Nat.ltb 1 (length (cd :: cds))); [|apply rp_ret].
         apply rp_bind; [apply rp_of_kq; [apply kq_of_q5, q5_beep|unfold beep; kh_auto]|]. intros _.
-        apply rp_bind; [apply rp_of_kq; [apply kq_next_cmd|apply kh_next_cmd]|]. intros c.
+        apply rp_bind; [destruct (c_show_all cfg); [apply rp_ret|apply rp_of_kq; [apply kq_next_cmd|apply kh_next_cmd]]|]. intros c.
         destruct c; try apply rp_ret.
-        (* Tab again: the candidates are listed; the cursor goes to the end and back *)
+        (* Tab again (or show-all): the candidates are listed; the cursor goes to the end and back *)
         intros s1 HP1. unfold ebind at 1. cbn [eget]. cbv zeta.
         pose proof HP1 as [[HJ1 HN1] Hh1]. pose proof HJ1 as [Hw1 _].
         assert (Hme : rp H (moved U cfg move_end)).
